@@ -608,6 +608,9 @@ func runC13(c *Ctx) {
 	// a stale cache file is refused: every entity in git is addressable after a restart (shared with C11)
 	checkLoadHeuristic(c)
 	checkExcerptsDeletedOnlyByRemoval(c, "R11.13")
+	// what the cache files under an id is the entity of that id; comments resolved exist in the stored or staged operations (shared with C07/C10)
+	checkMergeRefIdGuard(c)
+	checkWithSnapshot(c)
 	checkCommentCombinedIdStable(c, "R13.8")
 	// what Resolve / ResolveComment hand out is a live instance: use refreshes its LRU position (shared with C18)
 	checkLRUAndWriteSection(c, newLockWorld(c.W))
